@@ -538,7 +538,12 @@ class _Crash:
         g3 = z3.ForAll([q], self.path_ok(fs, fs0, so, q, None if cur_path is None else None))
         if cur_path is not None:
             g3 = z3.ForAll([q], z3.If(q == cur_path, self.path_ok(fs, fs0, so, q, new_key), self.path_ok_loop(fs, so, q)))
-            self._classes[tag + ":committed_paths_still_resolve"] = {"unlink_before_relink": z3.Not(self.path_ok(fs, fs0, so, cur_path, new_key))}
+            # recorded class: the path being RE-POINTED to a new key is briefly without link; a path whose key is unchanged
+            # must never be touched
+            data = so.fields["_data_root"].term
+            root = so.fields["_root"].term
+            repointed = fs0.resolve(loc_p(data, cur_path)) != blob_p(root, new_key)
+            self._classes[tag + ":committed_paths_still_resolve"] = {"unlink_before_relink": z3.And(z3.Not(self.path_ok(fs, fs0, so, cur_path, new_key)), repointed)}
         eng.oblige(tag + ":committed_paths_still_resolve", g3, kind="crash", cut=False)
 
     def path_ok_loop(self, fs, so, q):
